@@ -78,20 +78,31 @@ fn certainly_ill_formed(line: &str) -> Option<&'static str> {
 
 pub fn run(tier: Tier) -> i32 {
     let rep = Report::new("C17", tier, "model_checking");
-    rep.set_rule("SCOPE: (forms) utterances x {&[&str], &[String], Vec<String>, &[&str; N], Vec<Label>} x a blank line inserted at every position x time stamps present/absent with alignment off, and time-stamped lines with blank lines at every position with alignment on, waveforms compared bit-exactly; (faults) 5 base lines (plain label, label with times, label with fractional times, and two already ill-formed ones: one time stamp deleted, /K: section deleted): every single-character deletion, duplication, and substitution/insertion from a 33-symbol alphabet (incl. line breaks) at every position, every prefix truncation, every token deletion/duplication, 14 special time tokens; thorough: all pairs of substitutions on a 40-character window; oracle: never a panic, Err required for certainly ill-formed lines (two tokens, time rejected by f64::from_str, missing phoneme separator or /A:../K: marker); distinct = distinct corrupted line; non-trivial = line differs from the base");
+    rep.set_rule("SCOPE: (forms) utterances (incl. labels whose first phoneme is named like a number: 2, -1, 1e3, .5, +0) x {&[&str], &[String], Vec<String>, &[&str; N], Vec<Label>} x a blank line inserted at every position x time stamps present/absent with alignment off, and time-stamped lines with blank lines at every position with alignment on, waveforms compared bit-exactly; (faults) 5 base lines (plain label, label with times, label with fractional times, and two already ill-formed ones: one time stamp deleted, /K: section deleted): every single-character deletion, duplication, and substitution/insertion from a 33-symbol alphabet (incl. line breaks) at every position, every prefix truncation, every token deletion/duplication, 14 special time tokens; thorough: all pairs of substitutions on a 40-character window; oracle: never a panic, Err required for certainly ill-formed lines (two tokens, time rejected by f64::from_str, missing phoneme separator or /A:../K: marker); distinct = distinct corrupted line; non-trivial = line differs from the base");
     rep.assume("single faults (pairs on one window in the thorough tier); lines that are not certainly ill-formed may be accepted or rejected");
     let corpus = labels::corpus();
     let tiny = engine_from_bytes(&GenCfg { nstate: 2, ..GenCfg::default() }.bytes()).expect("generated voice");
     let v0 = engine_pk(&[0]);
     // ---------- forms ----------
-    let utts: Vec<Vec<String>> = vec![vec![], vec![corpus[41].clone()], corpus[40..43].to_vec(), corpus[0..2].to_vec(), corpus[100..105].to_vec()];
+    let mut utts: Vec<Vec<String>> = vec![vec![], vec![corpus[41].clone()], corpus[40..43].to_vec(), corpus[0..2].to_vec(), corpus[100..105].to_vec()];
+    // labels whose text starts like a number (a phoneme named "2", "-1", "1e3", ".5"): still labels, not time stamps
+    for name in ["2", "-1", "1e3", ".5", "+0"] {
+        let u: Vec<String> = corpus[40..42].iter().map(|l| format!("{}{}", name, &l[l.find('^').unwrap()..])).collect();
+        if u.iter().all(|l| l.parse::<jlabel::Label>().is_ok()) {
+            utts.insert(2, u);
+        }
+    }
+    let numberlike = utts.len() - 5;
+    rep.guard(numberlike >= 2, "no number-like label accepted by the label parser");
     let form_cases = AtomicU64::new(0);
-    for (ename, e, utt_limit) in [("G", &tiny, utts.len()), ("V0", &v0, tier.pick(3, 4))] {
+    for (ename, e, utt_limit) in [("G", &tiny, utts.len()), ("V0", &v0, tier.pick(3, 4) + numberlike)] {
         for u in utts.iter().take(utt_limit) {
-            let base = synth(e, u);
-            let Ok(base) = base else {
-                rep.violation("base", "base synthesis failed", json!({"engine": ename, "labels": u}));
-                continue;
+            let base = match synth(e, u) {
+                Ok(b) => b,
+                Err(why) => {
+                    rep.violation("base", format!("well-formed label lines given as strings are not synthesized: {}", why), json!({"engine": ename, "labels": u}));
+                    continue;
+                }
             };
             let mut variants: Vec<(String, Vec<String>)> = vec![("plain".into(), u.clone())];
             for pos in 0..=u.len() {
